@@ -52,6 +52,7 @@ fn dispatch(cmd: &str, opts: &util::Opts) {
         "objlog" => obj::log(opts),
         "codec-object" => codec::run_object(opts),
         "codec-block" => codec::run_block(opts),
+        "codec-replay" => codec::replay(opts),
         "findfail" => codec::find_fail(opts),
         "overhead" => overhead::run(opts),
         "stream" => stream::run(opts),
